@@ -8,7 +8,7 @@ prop=$(python3 -c "import json;print(json.load(open('$dir/meta.json'))['property
 checks=("$@"); [ ${#checks[@]} -eq 0 ] && checks=("$prop")
 if [ -n "$(git -C /repo status --porcelain)" ]; then echo "/repo not clean" >&2; exit 2; fi
 git -C /repo apply "$dir/patch.diff" || git -C /repo apply --3way "$dir/patch.diff" || { echo "$id: patch does not apply"; exit 2; }
-trap 'git -C /repo checkout -- . ; git -C /repo reset -q' EXIT
+trap 'git -C /repo reset -q --hard HEAD' EXIT
 for c in "${checks[@]}"; do
   out=$(cd /verif && VERIF_NO_EVIDENCE=1 timeout 1500 ./check "$c" quick 2>&1)
   rc=$?
